@@ -15,7 +15,7 @@ use std::collections::{BTreeMap, HashSet};
 // C05
 // ======================================================================
 
-const ANNOUNCE_DOWN: u64 = 500;
+pub const ANNOUNCE_DOWN: u64 = 500;
 
 #[derive(Clone, Debug)]
 pub struct C05Cell {
@@ -33,12 +33,16 @@ pub struct C05Cell {
     pub asymmetric: bool,
     /// every member refuted a suspicion before the partition (incarnation > 0)
     pub bumped: bool,
+    /// the same partition happens twice (see e2_c05b)
+    pub twice: bool,
 }
 
 impl C05Cell {
     pub fn label(&self) -> String {
         if self.asymmetric {
             format!("n={} asymmetric-false-down phase={} at-event={} refuted-before={}", self.n, self.phase, self.start_event, self.bumped)
+        } else if self.twice {
+            format!("n={} split={}/{} phase={} partition-at-event={} TWO EPISODES first-heal=mutual-down+{} second-heal=first-down+remove_down_after+20+{}", self.n, self.side_a, self.n - self.side_a, self.phase, self.start_event, self.extra, self.extra)
         } else {
             format!("n={} split={}/{} phase={} partition-at-event={} heal=mutual-down+{} refuted-before={}", self.n, self.side_a, self.n - self.side_a, self.phase, self.start_event, self.extra, self.bumped)
         }
@@ -50,6 +54,9 @@ fn c05_cfg() -> Cfg {
 }
 
 pub fn run_c05(cell: &C05Cell, devs: &BTreeMap<usize, usize>) -> RunResult {
+    if cell.twice {
+        return crate::e2_c05b::run(cell, devs);
+    }
     let n = cell.n;
     let mut res = RunResult::default();
     let mut sim = Sim::new(n, SimOpts { lat_menu: vec![1, 9], words: rng::menu(n + 1, n.min(5)), record_sends: false, record_received: false });
@@ -238,16 +245,28 @@ pub fn c05(tier: &str) -> Report {
                         // one deviation (latency / tie-break / RNG answer) in the first
                         // announce-to-down period after the heal, on a regular sub-grid
                         let d = if th { usize::from(n <= 5 && ei % 5 == 0) } else { usize::from(n <= 4 || (si % 2 == 0 && ei % 4 == 0)) };
-                        cells.push((C05Cell { n, side_a, phase, start_event, extra: *extra, asymmetric: false, bumped: false }, d));
+                        cells.push((C05Cell { n, side_a, phase, start_event, extra: *extra, asymmetric: false, bumped: false, twice: false }, d));
                         if si % 2 == 0 && ei < 3 {
-                            cells.push((C05Cell { n, side_a, phase, start_event, extra: *extra, asymmetric: false, bumped: true }, 0));
+                            cells.push((C05Cell { n, side_a, phase, start_event, extra: *extra, asymmetric: false, bumped: true, twice: false }, 0));
                         }
                     }
                 }
             }
+            // the same partition twice, second heal after the first episode's
+            // forget-timers fired
+            for side_a in 1..=n / 2 {
+                if (n - side_a).max(side_a) < 2 || (!th && n > 4) {
+                    continue;
+                }
+                for start_event in (0..(4 * n as u64)).step_by(if th { 1 } else { 4 }) {
+                    for extra in if th { vec![0u64, 50, 130, 255, 380, 500] } else { vec![0u64, 130] } {
+                        cells.push((C05Cell { n, side_a, phase, start_event, extra, asymmetric: false, bumped: false, twice: true }, usize::from(th && n <= 4)));
+                    }
+                }
+            }
             for start_event in (0..(4 * n as u64)).step_by(if th { 1 } else { 4 }) {
-                cells.push((C05Cell { n, side_a: 0, phase, start_event, extra: 0, asymmetric: true, bumped: false }, usize::from(th || n == 3)));
-                cells.push((C05Cell { n, side_a: 0, phase, start_event, extra: 0, asymmetric: true, bumped: true }, 0));
+                cells.push((C05Cell { n, side_a: 0, phase, start_event, extra: 0, asymmetric: true, bumped: false, twice: false }, usize::from(th || n == 3)));
+                cells.push((C05Cell { n, side_a: 0, phase, start_event, extra: 0, asymmetric: true, bumped: true, twice: false }, 0));
             }
         }
     }
@@ -292,7 +311,7 @@ pub fn c05(tier: &str) -> Report {
         });
         rep.sample(json!({"cell": c.label(), "schedule": "default", "events_after_the_heal": tr}));
     }
-    rep.rule = "fault cells = cluster size x every split shape (up to symmetry) x formation phase offset {0,1,17} x partition start at event indices of the window x heal instant (mutual Down + {0, 1, 7 probe periods, 130, 255, 380 ticks}) plus the asymmetric case (a single live member falsely declared Down); on top of selected cells every schedule with <= 1 deviation in the first announce-to-down period after the heal. distinct = fault cells".into();
+    rep.rule = "fault cells = cluster size x every split shape (up to symmetry) x formation phase offset {0,1,17} x partition start at event indices of the window x heal instant (mutual Down + {0, 1, 7 probe periods, 130, 255, 380 ticks}) plus the asymmetric case (a single live member falsely declared Down) plus the two-episode shape (the same partition twice, remove_down_after 9000 ticks, second heal right after the first episode's forget-timers fired); on top of selected cells every schedule with <= 1 deviation in the first announce-to-down period after the heal. distinct = fault cells".into();
     rep.assume("renewable identities, notify_down_members, periodic_announce_to_down_members(500 ticks, 2 members); convergence bound asserted: 8 announce-to-down periods after the heal");
     rep
 }
